@@ -751,6 +751,9 @@ class ClassDeclaration(Declaration):
                                                          type_var_map)
                 if new_p.param_type.is_type_var() and (
                         new_p.param_type.bound is not None):
+                    # The type variable may come from `type_var_map`, i.e.,
+                    # it may belong to the program: work on a copy.
+                    new_p.param_type = deepcopy(new_p.param_type)
                     new_p.param_type.bound = _instantiate_type_param_rec(
                         new_p.param_type.bound, type_var_map
                     )
@@ -762,6 +765,7 @@ class ClassDeclaration(Declaration):
             ret_type = types.substitute_type(deepcopy(f.get_type()),
                                              type_var_map)
             if ret_type.is_type_var() and ret_type.bound is not None:
+                ret_type = deepcopy(ret_type)
                 ret_type.bound = _instantiate_type_param_rec(ret_type.bound,
                                                              type_var_map)
             new_f.params = params
